@@ -18,7 +18,11 @@ pub fn mod_(
 
     // A zero can be written without a unit (the literal `0` has any dimension):
     // use the unit of the other argument then.
-    let unit = if x.is_zero() { y.unit() } else { x.unit() };
+    let unit = if x.is_zero() && (!y.is_zero() || x.unit().is_scalar()) {
+        y.unit()
+    } else {
+        x.unit()
+    };
 
     let x_value = x
         .convert_to(unit)
